@@ -504,6 +504,45 @@ def r12_defined_after_zero_iterations(idx, r):
         raise AnalysisError(f"only {n} loops analysed in the operator package")
 
 
+def r13_positions_and_lengths(idx, r):
+    """(a) Operator.addInterface places an interface at `index` when one is given - 0 (the head of the stack) included: the optional index is
+    compared with None, never evaluated for truth.  (b) the detailed `cycles` input takes real-valued cycle lengths and availability factors:
+    their schema coerces to float (an integer coercion truncates 10.5 days to 10 and the step lengths no longer sum to the input)."""
+    f = idx.method(OP, "addInterface")
+    if "index" not in f.params():
+        raise AnchorMissing("Operator.addInterface(index=...)")
+    bad = []
+    for x in ast.walk(f.node):
+        tests = []
+        if isinstance(x, (ast.If, ast.IfExp, ast.While)):
+            tests.append(x.test)
+        elif isinstance(x, ast.BoolOp):
+            tests.extend(x.values)
+        elif isinstance(x, ast.UnaryOp) and isinstance(x.op, ast.Not):
+            tests.append(x.operand)
+        bad += [t for t in tests if isinstance(t, ast.Name) and t.id == "index"]
+    r.require(not bad, "addInterface:index-compared-with-None", f, node=bad[0] if bad else None,
+              msg="`index` is evaluated for truth: index=0 (put this interface first) is treated as 'no index' and the interface is appended at the END of the stack, so it is called last at every event")
+    ins = [c for c in iter_calls(f.node) if norm(c.func) == "self.interfaces.insert"]
+    r.require(len(ins) == 1 and norm(ins[0].args[0]) == "index", "addInterface:inserted-at-the-index", f, msg="with an index the interface is inserted there")
+    m = idx.modules.get("armi.settings.fwSettings.globalSettings")
+    ds = m.functions.get("defineSettings") if m is not None else None
+    if ds is None:
+        raise AnchorMissing("globalSettings.defineSettings")
+    want = {"cycle length": "float", "availability factor": "float", "burn steps": "int"}
+    seen = {}
+    for d in [x for x in ast.walk(ds.node) if isinstance(x, ast.Dict)]:
+        for k, v in zip(d.keys, d.values):
+            if isinstance(k, ast.Constant) and k.value in want:
+                co = [c for c in ast.walk(v) if isinstance(c, ast.Call) and (dotted(c.func) or "").endswith("Coerce") and c.args]
+                if co:
+                    seen[k.value] = norm(co[0].args[0])
+    if set(seen) != set(want):
+        raise AnchorMissing(f"cycles schema entries {sorted(set(want) - set(seen))}")
+    for k, t in sorted(want.items()):
+        r.require(seen[k] == t, f"cycles-schema:{k}:{t}", ds, msg=f"`{k}` is coerced to {seen[k]}; it must be {t}: a fractional {k} is silently truncated and the step lengths no longer sum to availability x cycle length")
+
+
 def run(idx, chk):
     chk.explanation = (
         "C15: the operator's main, cycle and node loops, _interactAll, the six interactAllX entry points, getActiveInterfaces, the tight "
@@ -532,3 +571,5 @@ def run(idx, chk):
                  necessary="step lengths sum to availability x cycle length for every admitted history, including availability 0")
     chk.run_rule("R15.12", "no local of the operator package is read after a loop that is its only place of assignment", lambda r: r12_defined_after_zero_iterations(idx, r), floor=20,
                  necessary="every event is delivered for every admitted history, including a coupling cap of zero iterations")
+    chk.run_rule("R15.13", "addInterface honours index 0; detailed cycle lengths and availability factors are real-valued", lambda r: r13_positions_and_lengths(idx, r), floor=5,
+                 necessary="interfaces are called in stack order; step lengths sum to availability x cycle length")
